@@ -894,6 +894,17 @@ impl RootRef<'_> {
             description: "file creation path has trailing slash".into(),
         })?;
 
+        // The kernel silently ignores O_CREAT if O_PATH is set, which would
+        // turn this into a plain (no-follow) lookup of the final component --
+        // including "." and "..", the latter giving the caller a handle to
+        // the parent of the directory (for "..", the parent of the root).
+        if flags.contains(OpenFlags::O_PATH) {
+            Err(ErrorImpl::InvalidArgument {
+                name: "flags".into(),
+                description: "O_PATH cannot be used to create a file".into(),
+            })?
+        }
+
         // XXX: openat2(2) supports doing O_CREAT on trailing symlinks without
         // O_NOFOLLOW. We might want to expose that here, though because it
         // can't be done with the emulated backend that might be a bad idea.
